@@ -1,7 +1,7 @@
 /-
 `intersect` of the schema IR means conjunction on the `oneOf`-free fragment: the main induction.
 -/
-import LlgVerif.Proofs.Schema
+import LlgVerif.Proofs.SchemaObj
 namespace LlgVerif
 namespace Sch
 open Js
@@ -73,6 +73,7 @@ theorem intersect_good (lcm : Dec → Dec → Option Dec) (hl : LcmOK lcm isMult
       | number n => t_mism
       | string x y z => t_mism
       | array x y z w u => t_mism
+      | object x1 x2 x3 x4 x5 x6 => t_mism
     | boolean v1 =>
       cases b with
       | any => t_left
@@ -87,6 +88,7 @@ theorem intersect_good (lcm : Dec → Dec → Option Dec) (hl : LcmOK lcm isMult
       | number n => t_mism
       | string x y z => t_mism
       | array x y z w u => t_mism
+      | object x1 x2 x3 x4 x5 x6 => t_mism
     | number n1 =>
       cases b with
       | any => t_left
@@ -103,6 +105,7 @@ theorem intersect_good (lcm : Dec → Dec → Option Dec) (hl : LcmOK lcm isMult
         exact intersectNum_sat lcm isMult hl n1 n2 n hn _
       | string x y z => t_mism
       | array x y z w u => t_mism
+      | object x1 x2 x3 x4 x5 x6 => t_mism
     | string l1 h1 r1 =>
       cases b with
       | any => t_left
@@ -130,6 +133,7 @@ theorem intersect_good (lcm : Dec → Dec → Option Dec) (hl : LcmOK lcm isMult
           cases optAll h1 (fun h => decide (s.length ≤ h)) <;> cases optAll h2 (fun h => decide (s.length ≤ h)) <;>
           cases optAll r1 (fun r => satRx ρ r s) <;> cases optAll r2 (fun r => satRx ρ r s) <;> rfl
       | array x y z w u => t_mism
+      | object x1 x2 x3 x4 x5 x6 => t_mism
     | array l1 h1 p1 n1 i1 =>
       cases b with
       | any => t_left
@@ -140,6 +144,7 @@ theorem intersect_good (lcm : Dec → Dec → Option Dec) (hl : LcmOK lcm isMult
       | boolean x => t_mism
       | number n => t_mism
       | string x y z => t_mism
+      | object x1 x2 x3 x4 x5 x6 => t_mism
       | array l2 h2 p2 n2 i2 =>
         simp only [Ok, Bool.and_eq_true, Bool.or_eq_true, Bool.not_eq_eq_eq_not, Bool.not_true] at ha hb
         obtain ⟨⟨hp1, hi1⟩, hf1⟩ := ha
@@ -193,6 +198,94 @@ theorem intersect_good (lcm : Dec → Dec → Option Dec) (hl : LcmOK lcm isMult
       | number n => t_anyL
       | string x y z => t_anyL
       | array x y z w u => t_anyL
+      | object x1 x2 x3 x4 x5 x6 => t_anyL
+    | object p1 n1 a1 r1 lo1 hi1 =>
+      cases b with
+      | any => t_left
+      | unsat => t_unsat
+      | oneOf l => t_oneb
+      | anyOf opts => t_anyR
+      | null => t_mism
+      | boolean x => t_mism
+      | number n => t_mism
+      | string x y z => t_mism
+      | array x y z w u => t_mism
+      | object p2 n2 a2 r2 lo2 hi2 =>
+        simp only [Ok, Bool.and_eq_true, Bool.or_eq_true, Bool.not_eq_eq_eq_not, Bool.not_true] at ha hb
+        obtain ⟨⟨⟨hp1, ha1⟩, hf1⟩, hnd1⟩ := ha
+        obtain ⟨⟨⟨hp2, ha2⟩, hf2⟩, hnd2⟩ := hb
+        cases hq1 : SchKL.mapLeft (intersect lcm f) p2 a2 p1 with
+        | none => simp [hq1] at hcore
+        | some q1 =>
+          cases hq2 : SchKL.mapRight (intersect lcm f) p1 a1 p2 with
+          | none => simp [hq1, hq2] at hcore
+          | some q2 =>
+            simp only [hq1, hq2, Option.map_eq_some_iff] at hcore
+            obtain ⟨apr, hapr, rfl⟩ := hcore
+            have hitems : Ok apr.2 = true ∧ (!apr.1 || isAny apr.2) = true ∧
+                ∀ v, sat ρ isMult apr.2 v = (sat ρ isMult a1 v && sat ρ isMult a2 v) := by
+              cases n1 <;> cases n2
+              · simp only [Option.map_eq_some_iff] at hapr
+                obtain ⟨it, hit, rfl⟩ := hapr
+                obtain ⟨h1', h2'⟩ := ih a1 a2 it hit ha1 ha2
+                exact ⟨h1', by simp, h2'⟩
+              · simp only [Option.some.injEq] at hapr
+                subst hapr
+                have h2any : isAny a2 = true := by simpa using hf2
+                exact ⟨ha1, by simp, fun v => by rw [isAny_sat ρ isMult h2any v]; simp⟩
+              · simp only [Option.some.injEq] at hapr
+                subst hapr
+                have h1any : isAny a1 = true := by simpa using hf1
+                exact ⟨ha2, by simp, fun v => by rw [isAny_sat ρ isMult h1any v]; simp⟩
+              · simp only [Option.some.injEq] at hapr
+                subst hapr
+                have h1any : isAny a1 = true := by simpa using hf1
+                have h2any : isAny a2 = true := by simpa using hf2
+                exact ⟨by simp [Ok], by simp [isAny], fun v => by
+                  rw [isAny_sat ρ isMult h1any v, isAny_sat ρ isMult h2any v]; simp [sat]⟩
+            obtain ⟨hitok, hitfl, hits⟩ := hitems
+            obtain ⟨hq1ok, hq1k, hq1s⟩ := mapLeft_sat ρ isMult (intersect lcm f) ih p2 a2 hp2 ha2 p1 q1 hq1 hp1
+            obtain ⟨hq2ok, hq2k, hq2s⟩ := mapRight_sat ρ isMult (intersect lcm f) ih p1 a1 hp1 ha1 p2 q2 hq2 hp2
+            have hkv : ∀ key v, satKV ρ isMult (sat ρ isMult apr.2) (q1.append q2) key v =
+                (satKV ρ isMult (sat ρ isMult a1) p1 key v && satKV ρ isMult (sat ρ isMult a2) p2 key v) := by
+              intro key v
+              rw [satKV_append]
+              cases h1k : p1.hasKey key with
+              | true =>
+                rw [hq1k key, h1k]
+                simp only [↓reduceIte]
+                exact hq1s key v _ _ h1k
+              | false =>
+                rw [hq1k key, h1k]
+                simp only [Bool.false_eq_true, ↓reduceIte]
+                rw [satKV_noKey ρ isMult _ v key p1 h1k]
+                cases h2k : p2.hasKey key with
+                | true => exact hq2s key v _ _ h1k h2k
+                | false =>
+                  have : q2.hasKey key = false := by rw [hq2k key h1k, h2k]
+                  rw [satKV_noKey ρ isMult _ v key q2 this, satKV_noKey ρ isMult _ v key p2 h2k]
+                  exact hits v
+            have hreq := nodup_union r1 r2 hnd1 hnd2
+            have heq := object_eq ρ isMult p1 p2 (q1.append q2) n1 n2 apr.1 a1 a2 apr.2 r1 r2 lo1 lo2 hi1 hi2 hkv
+            have hokobj : Ok (Sch.object (q1.append q2) apr.1 apr.2 (r1 ++ r2.filter (fun k => !r1.contains k))
+                (max lo1 lo2) (optMinNat hi1 hi2)) = true := by
+              simp only [Ok, OkKL_append, hq1ok, hq2ok, hitok, hitfl, hreq, Bool.and_self]
+            cases hhi : optMinNat hi1 hi2 with
+            | none =>
+              simp only [hhi] at heq hokobj ⊢
+              exact ⟨by simpa using hokobj, heq⟩
+            | some h =>
+              simp only [hhi] at heq hokobj ⊢
+              by_cases c1 : max lo1 lo2 > h
+              · simp only [c1, decide_true, ↓reduceIte]
+                exact ⟨by simp [Ok], fun v => by
+                  rw [← heq v, object_unsat_minmax ρ isMult _ _ _ _ _ h c1 v]; simp [sat]⟩
+              · by_cases c2 : (r1 ++ r2.filter (fun k => !r1.contains k)).length > h
+                · simp only [c1, c2, decide_true, decide_false, Bool.false_eq_true, ↓reduceIte]
+                  exact ⟨by simp [Ok], fun v => by
+                    rw [← heq v, object_unsat_required ρ isMult _ _ _ _ _ h hreq c2 v]; simp [sat]⟩
+                · simp only [c1, c2, decide_false, Bool.false_eq_true, ↓reduceIte]
+                  exact ⟨hokobj, heq⟩
 
 end Sch
 end LlgVerif
